@@ -268,7 +268,10 @@ def macro_idiom_rules(ctx, m, fns, views):
                 ret_root = field_chain(c.args[0])[0][1]
         toks = flat(outs, ret_root)
         idents = [t[1] for t in toks if t[0] == "ident"]
-        ok = idents[:5] == ["impl", "bourse_de", "agents", trait, "for"] and "fn" in idents and idents[idents.index("fn") + 1] == "update"
+        # (attributes such as #[automatically_derived] / #[inline] may precede `impl` / `fn`; paths may be written absolute)
+        i0 = idents.index("impl") if "impl" in idents else 0
+        ok = idents[i0:i0 + 5] == ["impl", "bourse_de", "agents", trait, "for"] and "fn" in idents and idents[idents.index("fn") + 1] == "update" \
+            and idents.count("impl") == 1 and idents.count("fn") == 1
         ctx.check(ok, "macro", f.name + "|trait", ctx.loc(f), "emits `impl bourse_de::agents::%s for <name> { fn update ..` " % trait, "emits idents %s" % idents[:12])
         # parameters: & mut self , env : .. , rng : & mut R
         try:
